@@ -15,8 +15,7 @@ GROUPS += [
     _pl('C07.O2.acquire', 'h_acquire', 'H_ACQUIRE', 'arbitrary holdings of the caller and one other process, capacity <= 255, any request; environment re-draws the other holding (and may preempt the caller) at every wait', canaries=2, extra=['CMV_ONE_OTHER']),
     _pl('C07.O3.preempt', 'h_acquire', 'H_PREEMPT', 'as acquire, with the preemption loop over one potential victim of arbitrary priority; one wait per call followed', canaries=2, extra=['CMV_ONE_OTHER', 'CMV_MAX_WAITS=1u']),
     _pl('C07.O3.preempt.w2', 'h_acquire', 'H_PREEMPT', 'as C07.O3.preempt with two waits per call followed', canaries=2, extra=['CMV_ONE_OTHER'], tier='thorough', timeout=3000),
-    _pl('C07.O2.acquire.3', 'h_acquire', 'H_ACQUIRE', 'three processes', canaries=2, tier='thorough', timeout=3000),
-    _pl('C07.O3.preempt.3', 'h_acquire', 'H_PREEMPT', 'three processes, <= 2 victims', canaries=2, tier='thorough', timeout=3000),
+    # ('C07.O2.acquire.3' / 'C07.O3.preempt.3' - three processes - are NOT registered: neither query finished in 3000 s)
     _pl('C07.O4.release', 'h_release', 'H_RELEASE', 'arbitrary holdings, any amount <= the caller holding'),
     _pl('C07.O4.release_lost', 'h_release_lost', 'H_RELEASE_LOST', 'the caller holds nothing (preempted, notice overtaken) and releases n <= capacity', replay=replays.demo_replay('c07_preempt_interrupt_demo.c')),
     _pl('C07.O4.drop', 'h_drop', 'H_DROP', 'a holder ends: drop method', also_extra=['C09']),
